@@ -48,7 +48,7 @@ t-comment markers around dynamic text; the client never looks at any of it -/
 def frozenOf (σ : Store) : Inst → List Ch
   | .el _ tag attrs cs => [.el tag (([2], []) :: evalAttrs σ attrs) (mergeCh (frozenOfList σ cs))]
   | .text _ s => [.text s]
-  | .dynText _ sig => [.text (natToStr (σ.get sig))]
+  | .dynText _ sig => [.text (dynTextStr (σ.get sig))]
   | .dynView _ _ _ _ cur => frozenOfList σ cur
   | .show _ _ sig cs => if σ.get sig % 2 = 1 then frozenOfList σ cs else []
   | .frag cs => frozenOfList σ cs
@@ -66,7 +66,7 @@ def ssrOf (σ : Store) : Inst → List Ch × List Pend
     let (c, p) := ssrOfList σ cs
     ([.el tag (evalAttrs σ attrs) (mergeCh c)], [.el tag (evalAttrs σ attrs) p])
   | .text _ s => ([.text s], [.textStatic])
-  | .dynText _ sig => ([.cmt [116], .text (natToStr (σ.get sig)), .cmt []], [.textDynamic (natToStr (σ.get sig))])
+  | .dynText _ sig => ([.cmt [116], .text (dynTextStr (σ.get sig)), .cmt []], [.textDynamic (dynTextStr (σ.get sig))])
   | .dynView _ _ _ _ cur =>
     let (c, p) := ssrOfList σ cur
     ([.cmt [47]] ++ c ++ [.cmt [47]], [.marker] ++ p ++ [.marker])
@@ -144,7 +144,7 @@ mutual
 def freezeInst (σ : Store) : Inst → Inst
   | .el id tag attrs cs => .el id tag ((evalAttrs σ attrs).map fun (n, v) => (n, .static v)) (freezeList σ cs)
   | .text id s => .text id s
-  | .dynText id sig => .text id (natToStr (σ.get sig))
+  | .dynText id sig => .text id (dynTextStr (σ.get sig))
   | .dynView _ _ _ _ cur => .frag (freezeList σ cur)
   | .show _ _ sig cs => if σ.get sig % 2 = 1 then .frag (freezeList σ cs) else .frag .nil
   | .frag cs => .frag (freezeList σ cs)
